@@ -190,7 +190,7 @@ class C19(core.Check):
     def cases(self, tier, seed, shard, nshards):
         rnd = core.sub_rng('C19', seed, shard)
         n = (6000 if tier == 'quick' else 100000) // nshards
-        ncli = (64 if tier == 'quick' else 640) // nshards
+        ncli = (128 if tier == 'quick' else 960) // nshards
         for i in range(n):
             yield dict(s=rnd.getrandbits(48), pack=rnd.choice(PACKS), dcls=rnd.choice(DCLS), via='api',
                        lang=rnd.choice(['en', 'de']))
@@ -225,7 +225,14 @@ class C19(core.Check):
             with open(fn, 'w') as f:
                 f.write(src)
             cmd = [env.PY, '-m', 'yalafi.shell', '--list-unknown', '--no-config', '--packages', case['pack'],
-                   '--documentclass', case['dcls'], fn]
+                   '--documentclass', case['dcls']]
+            # other options must not turn the list into something else (they may come from a configuration file)
+            k = case['s'] % 6
+            extra = [[], ['--multi-language'], ['--output', 'json'], ['--multi-language', '--output', 'html'],
+                     ['--single-letters', 'A|I', '--equation-punctuation', 'all'], ['--simple-equations', '--language', 'de-DE']][k]
+            if extra:
+                cnt['shell_with_other_options'] = 1
+            cmd += extra + [fn]
             pr = subprocess.run(cmd, capture_output=True, timeout=120, cwd=self.tmp, env=env.child_env())
             if pr.returncode != 0:
                 return dict(ok=False, nt=True, key='shell-exit', cnt=cnt, obs=None,
@@ -256,7 +263,7 @@ class C19(core.Check):
                     obs=dict(src=tex.short(src, 250), listed=exp))
 
     def quotas(self, tier):
-        return {'with_repl_option': 300, 'via_api': 3000, 'via_cli': 10, 'via_shell': 10, 'names_listed': 5000,
+        return {'with_repl_option': 300, 'via_api': 3000, 'via_cli': 10, 'via_shell': 10, 'shell_with_other_options': 20, 'names_listed': 5000,
                 'docs_with_names_in_maths_or_hidden': 2000}
 
 
